@@ -2,6 +2,7 @@ import Thanos.Common.Parse
 import Thanos.Model.Quorum
 import Thanos.Model.RWv2
 import Thanos.Model.Gate
+import Thanos.Model.Capnp
 /-
   Line-protocol driver of the `receive` family (C22 C23 C24 C25 C26).
   One request per line, one answer per line; every line is self-contained.
@@ -41,6 +42,15 @@ import Thanos.Model.Gate
                                          f  the oldest request inside the write path completes
       answer     per step `running.waiting.gauge` (after the freed slots were taken by blocked requests),
                  joined by `,`, then ` p=<panics> max=<most requests inside the write path at once>`
+
+  capnp.rt (t<hex> <series>*)+                                                     (C25)
+      a multi-tenant write request: tenant tokens `t`+hex, each followed by its series
+      series     labels|samples|exemplars|hists      labels `_` | x<hex>~x<hex>(,…)   samples `_` | bits:ts(,…)
+                 exemplars `_` | labels(`.`-joined):bits:ts(,…)
+                 hists `_` | cnt:sum:schema:zth:zcnt:nspans:ndeltas:ncounts:pspans:pdeltas:pcounts:hint:ts:custom(,…)
+      answer     <offsets `.`-joined | _> <symbol data hex> then per tenant `t<hex>` and its decoded series
+                 labels|samples|exemplars|dhists,   dhist = I|F:hint:count:sum:schema:zth:zeroCount:pspans:nspans:pbuckets:nbuckets:custom:ts
+                 or `panic` when the decoder panics
 -/
 open Thanos Thanos.Parse
 
@@ -239,7 +249,115 @@ def gateRun (doneFirst : Bool) (cap : Nat) (evs : List Ev) : String :=
 
 end GateOps
 
+/-! ### C25 -/
+section CapnpOps
+open Thanos.Capnp
+
+def parseStr (t : String) : Option Str :=
+  match t.toList with
+  | 'x' :: rest => if rest.isEmpty then some [] else (hexDecode? (String.ofList rest)).map (·.map (·.toNat))
+  | _ => none
+
+def showStr (s : Str) : String :=
+  if s.isEmpty then "x" else "x" ++ hexEncode (s.map UInt8.ofNat)
+
+def parseLabel (t : String) : Option (Str × Str) :=
+  match splitChar '~' t with
+  | [n, v] => do pure (← parseStr n, ← parseStr v)
+  | _ => none
+
+def parseCCnt (s : String) : Option Capnp.Cnt :=
+  match s.toList with
+  | ['n'] => some .unset
+  | 'i' :: rest => (parseNat? (String.ofList rest)).map Capnp.Cnt.int
+  | 'f' :: rest => (parseNat? (String.ofList rest)).map Capnp.Cnt.float
+  | _ => none
+
+def parseCSpan (s : String) : Option Capnp.Span :=
+  match splitChar 'x' s with
+  | [o, l] => do pure ⟨← parseInt? o, ← parseNat? l⟩
+  | _ => none
+
+def parsePHist (s : String) : Option PHist :=
+  match splitChar ':' s with
+  | [cnt, sum, schema, zth, zcnt, ns, nd, nc, ps, pd, pc, hint, ts, custom] => do
+    pure { count := ← parseCCnt cnt, sum := ← parseNat? sum, schema := ← parseInt? schema,
+           zeroThreshold := ← parseNat? zth, zeroCount := ← parseCCnt zcnt,
+           negSpans := ← (listU '.' ns).mapM parseCSpan, negDeltas := ← intsU nd, negCounts := ← natsU nc,
+           posSpans := ← (listU '.' ps).mapM parseCSpan, posDeltas := ← intsU pd, posCounts := ← natsU pc,
+           resetHint := ← parseNat? hint, timestamp := ← parseInt? ts, customValues := ← natsU custom }
+  | _ => none
+
+def parsePExemplar (s : String) : Option PExemplar :=
+  match splitChar ':' s with
+  | [ls, v, t] => do pure ⟨← (listU '.' ls).mapM parseLabel, ← parseNat? v, ← parseInt? t⟩
+  | _ => none
+
+def parsePSample (s : String) : Option (Nat × Int) :=
+  match splitChar ':' s with
+  | [v, t] => do pure (← parseNat? v, ← parseInt? t)
+  | _ => none
+
+def parsePSeries (s : String) : Option PSeries :=
+  match splitChar '|' s with
+  | [ls, ss, es, hs] => do
+    pure ⟨← (listU ',' ls).mapM parseLabel, ← (listU ',' ss).mapM parsePSample,
+          ← (listU ',' hs).mapM parsePHist, ← (listU ',' es).mapM parsePExemplar⟩
+  | _ => none
+
+/-- tokens → (tenant token, its series tokens) -/
+def splitTenants : List String → List (String × List String) → Option (List (String × List String))
+  | [], acc => some acc.reverse
+  | t :: rest, acc =>
+    if t.startsWith "t" then splitTenants rest ((t, []) :: acc)
+    else match acc with
+      | [] => none
+      | (n, ss) :: acc' => splitTenants rest ((n, ss ++ [t]) :: acc')
+
+def parseTenant (p : String × List String) : Option (Str × List PSeries) :=
+  match p.1.toList with
+  | 't' :: hex => do
+    let name : Str ← if hex.isEmpty then some [] else (hexDecode? (String.ofList hex)).map (·.map (·.toNat))
+    pure (name, ← p.2.mapM parsePSeries)
+  | _ => none
+
+def parseTenants (toks : List String) : Option (List (Str × List PSeries)) := do
+  (← splitTenants toks []).mapM parseTenant
+
+def showCSpans (xs : List Capnp.Span) : String := joinU "." (xs.map fun s => s!"{s.offset}x{s.length}")
+def showLbls (sep : String) (ls : List (Str × Str)) : String := joinU sep (ls.map fun l => showStr l.1 ++ "~" ++ showStr l.2)
+
+def showDHist : DHist → String
+  | .int hint c sum schema zth zc ps ns pb nb custom ts =>
+    ":".intercalate ["I", toString hint, toString c, toString sum, toString schema, toString zth, toString zc,
+      showCSpans ps, showCSpans ns, showIntsU pb, showIntsU nb, showNatsU custom, toString ts]
+  | .float hint c sum schema zth zc ps ns pb nb custom ts =>
+    ":".intercalate ["F", toString hint, toString c, toString sum, toString schema, toString zth, toString zc,
+      showCSpans ps, showCSpans ns, showNatsU pb, showNatsU nb, showNatsU custom, toString ts]
+
+def showDSeries (s : DSeries) : String :=
+  "|".intercalate [showLbls "," s.labels,
+    joinU "," (s.samples.map fun x => s!"{x.1}:{x.2}"),
+    joinU "," (s.exemplars.map fun e => s!"{showLbls "." e.labels}:{e.value}:{e.ts}"),
+    joinU "," (s.hists.map showDHist)]
+
+def showTenantName (t : Str) : String := "t" ++ (if t.isEmpty then "" else hexEncode (t.map UInt8.ofNat))
+
+def capnpRT (req : List (Str × List PSeries)) : String :=
+  let m := encode req
+  match decode codeStrictUnion m with
+  | .error _ => "panic"
+  | .ok ts =>
+    " ".intercalate ([showNatsU m.offsets, hexEncode (m.data.map UInt8.ofNat)] ++
+      ts.flatMap fun t => showTenantName t.1 :: t.2.map showDSeries)
+
+end CapnpOps
+
 def handle : List String → String
+  | "capnp.rt" :: toks =>
+    match parseTenants toks with
+    | some req => if req.isEmpty then "bad-op" else capnpRT req
+    | none => "bad-op"
   | ["gate", entry, cap, steps] =>
     match parseNat? cap, (listOf ',' steps).mapM parseStep with
     | some cap, some evs =>
